@@ -588,6 +588,11 @@ class Check(PropertyCheck):
                         return f"command {r[1]} returned values that are not the frame's payload"
                 if len(cbs) > 1:
                     return "a frame was delivered to the callbacks more than once"
+                # a well-formed frame that answers no pending call (no registration under its number, or the registration already
+                # used up by an earlier frame -- the second copy of a reply) is delivered to the registered callbacks exactly once
+                if reg0 is None and not invalid and not rets and len(cbs) != 1:
+                    return (f"a frame (sequence number {seq}, frame id {fid:#x}) that answers no pending call was delivered to the "
+                            f"callbacks {len(cbs)} times" + (": it repeats a reply that has already been used" if seq in consumed else ""))
                 # a frame under a registered number consumes the registration, whether it completes the call or not
                 # (another command's id under the pending number fails the lookup and drops the entry: that call then
                 # ends by timeout, which the property permits)
